@@ -333,7 +333,40 @@ pub fn run_check(prop: &str, tier: &str) -> i32 {
             let n = crate::names::check_names(&rep);
             run_seq_phases_with(&rep, seq_phases(prop, tier), json!({"file_name_offsets_checked": n}))
         }
-        "C03" | "C05" | "C04" | "C07" | "C08" | "C14" => run_sched_check(prop, tier),
+        "C03" | "C05" | "C04" | "C08" | "C14" => run_sched_check(prop, tier),
+        "C07" => {
+            let rep = Reporter::new(prop, tier);
+            let c = sched_collect(&rep, prop, tier);
+            let r = sched_collect(&rep, "C07R", tier);
+            let mut samples = c.samples.clone();
+            samples.extend(r.samples.clone());
+            if samples.is_empty() {
+                samples.push(json!("(no history explored)"));
+            }
+            let cov = json!({
+                "states": (c.stats.scheduler_states + r.stats.scheduler_states).max(1),
+                "transitions": (c.stats.steps + r.stats.steps).max(1),
+                "traces_validated_against_impl": c.stats.executions + r.stats.executions,
+                "samples": samples,
+                "exhaustive": c.stats.caps_hit == 0 && c.skipped == 0 && r.stats.caps_hit == 0 && r.skipped == 0,
+                "work_items_history_x_config": c.items,
+                "histories_skipped_by_wall_cap": c.skipped,
+                "detail": c.stats.to_json(),
+                "reader_harness": {
+                    "work_items": r.items,
+                    "skipped_by_wall_cap": r.skipped,
+                    "detail": r.stats.to_json(),
+                    "explanation": "after the history (no waiting) the store is shared through an Arc with two reader threads (read(0,MAX)) and a drainer thread (drain_cache_evictable) while the flush worker still processes the queue; every cache access and pread64 is a scheduling point; all interleavings of the five threads; every reader must return exactly the model's entries",
+                },
+                "explanation": SCHED_EXPLANATION,
+            });
+            let code = rep.finish("model_checking", cov, sched_assumptions());
+            if let Some(m) = c.machinery.or(r.machinery) {
+                println!("MACHINERY-FAILURE: {}", m);
+                return 2;
+            }
+            code
+        }
         "C09" | "C10" => {
             let rep = Reporter::new(prop, tier);
             let cov = if prop == "C09" {
@@ -755,9 +788,11 @@ pub fn c14_specs(tier: &str) -> Vec<crate::c14::C14Spec> {
     let thorough = tier == "thorough";
     let alpha = [Sym::A, Sym::Pfirst, Sym::F, Sym::W];
     let mut out = vec![];
-    let max_prefix = if thorough { 3 } else { 1 };
+    let max_prefix = if thorough { 3 } else { 2 };
     for plen in 0..=max_prefix {
-        let keep = |_: &[Sym], _: &[SOp]| true;
+        // quick tier: of the length-2 prefixes only those with a purge (a chunk
+        // removal is then pending behind the acknowledged flush)
+        let keep = |syms: &[Sym], _: &[SOp]| thorough || plen < 2 || (has(syms, Sym::Pfirst) && has(syms, Sym::A));
         for prefix in schedx::histories(&alpha, plen, &keep) {
             for tail in 0..=2usize {
                 // prefix ; F ; W... (every outstanding flush) ; [A ...]
@@ -783,11 +818,12 @@ pub fn c14_specs(tier: &str) -> Vec<crate::c14::C14Spec> {
                     syms_ops.push(op);
                 }
                 for c in [Cfg::records(2), Cfg::records(3)] {
-                    if c.max_records == Some(3) && plen > 2 && !thorough {
-                        continue;
-                    }
+
                     // two rotations pending at drop after a non-empty prefix: thorough tier
                     if c.max_records == Some(2) && tail == 2 && plen >= 1 && !thorough {
+                        continue;
+                    }
+                    if plen >= 2 && !thorough && (c.max_records == Some(2) || tail >= 1) {
                         continue;
                     }
                     out.push(crate::c14::C14Spec { prop: "C14".to_string(), phase1: syms_ops.clone(), cfg: c, max_executions: 300_000 });
@@ -798,9 +834,86 @@ pub fn c14_specs(tier: &str) -> Vec<crate::c14::C14Spec> {
     out
 }
 
+pub fn reader_specs(tier: &str) -> Vec<crate::readers::ReaderSpec> {
+    let thorough = tier == "thorough";
+    let shapes: Vec<Vec<Sym>> = if thorough {
+        vec![
+            vec![Sym::A, Sym::A, Sym::F],
+            vec![Sym::A, Sym::A, Sym::A, Sym::F],
+            vec![Sym::A, Sym::A, Sym::F, Sym::A],
+            vec![Sym::A, Sym::A, Sym::Pfirst, Sym::F],
+            vec![Sym::A, Sym::Aup, Sym::T, Sym::Alow, Sym::F],
+            vec![Sym::A, Sym::A, Sym::F, Sym::A, Sym::A, Sym::F],
+        ]
+    } else {
+        vec![vec![Sym::A, Sym::A, Sym::F], vec![Sym::A, Sym::A, Sym::F, Sym::A]]
+    };
+    let mut out = vec![];
+    for sh in shapes {
+        for (items, cap) in [(Some(0usize), None), (Some(1), None), (None, Some(5usize))] {
+            if !thorough && items == Some(1) {
+                continue;
+            }
+            out.push(crate::readers::ReaderSpec {
+                prop: "C07".to_string(),
+                hist: schedx::from_syms(&sh),
+                cfg: Cfg::records(3).with_cache(items, cap),
+                max_executions: if thorough { 400_000 } else { 60_000 },
+            });
+        }
+    }
+    out
+}
+
+fn reader_shard(tier: &str, shard: usize, of: usize) -> i32 {
+    let specs = reader_specs(tier);
+    let mut stats = schedx::SchedStats::default();
+    let mut vios: Vec<crate::report::Violation> = vec![];
+    let mut machinery: Option<String> = None;
+    let mut samples: Vec<Value> = vec![];
+    let budget_s: u64 = std::env::var("VX_SHARD_WALL_S").ok().and_then(|s| s.parse().ok()).unwrap_or(if tier == "thorough" { 1500 } else { 25 });
+    let deadline = std::time::Instant::now() + Duration::from_secs(budget_s);
+    let mut skipped = 0u64;
+    for (i, s) in specs.iter().enumerate() {
+        if i % of != shard {
+            continue;
+        }
+        if std::time::Instant::now() > deadline {
+            skipped += 1;
+            continue;
+        }
+        let before = stats.executions;
+        if let Err(schedx::Machinery(m)) = crate::readers::explore(s, &mut vios, &mut stats, deadline) {
+            machinery = Some(m);
+            break;
+        }
+        if std::env::var("VX_SHARD_VERBOSE").is_ok() {
+            eprintln!("ITEM {} execs={} cfg={} hist=[{}]", i, stats.executions - before, s.cfg.short(), schedx::shist_short(&s.hist));
+        }
+        if samples.len() < 2 {
+            samples.push(json!({"history_then_2_readers_and_drainer": schedx::shist_short(&s.hist), "cfg": s.cfg.short(), "executions": stats.executions - before}));
+        }
+        let mut seen = std::collections::BTreeSet::new();
+        vios.retain(|v| seen.insert(v.key.clone()));
+    }
+    let out = json!({
+        "stats": stats.to_json(),
+        "vios": vios.iter().map(|v| json!({"prop": v.prop, "key": v.key, "what": v.what, "replay": v.replay})).collect::<Vec<_>>(),
+        "machinery": machinery,
+        "samples": samples,
+        "skipped_histories": skipped,
+        "work_items": specs.len(),
+    });
+    println!("{}", out);
+    0
+}
+
 pub fn sched_shard(prop: &str, tier: &str, shard: usize, of: usize) -> i32 {
     if prop == "C14" {
         return c14_shard(tier, shard, of);
+    }
+    if prop == "C07R" {
+        return reader_shard(tier, shard, of);
     }
     let specs = sched_specs(prop, tier);
     let mut stats = schedx::SchedStats::default();
